@@ -14,6 +14,8 @@ import (
 	"os"
 	"path/filepath"
 	"sort"
+	"sync"
+	"sync/atomic"
 	"time"
 
 	cmtabci "github.com/cometbft/cometbft/abci/types"
@@ -393,6 +395,9 @@ type cnReplica struct {
 	mux     cmtabci.Application
 	staking *stakingApp.Application
 	initVals []string
+	concurrent bool
+	bgTxs    [][]byte
+	bgCalls  int
 	probes  *cnProbes
 	name    string
 	ctx     context.Context
@@ -661,9 +666,59 @@ func (r *cnReplica) process(b *cnBlock, valset map[int]int64) (accepted bool, pe
 	return
 }
 
+// background runs mempool checks, gas estimation and historical state queries concurrently with the consensus connection
+// (as CometBFT's mempool and query connections do) until stop() is called.  CheckTx is never in flight during Commit:
+// CometBFT holds the mempool lock there, and the multiplexer relies on it.
+func (r *cnReplica) background(txs [][]byte) (stop func() int) {
+	if len(txs) == 0 || !r.concurrent {
+		return func() int { return 0 }
+	}
+	var quit atomic.Bool
+	var calls atomic.Int64
+	var wg sync.WaitGroup
+	for g := 0; g < 3; g++ {
+		wg.Add(1)
+		go func(g int) {
+			defer wg.Done()
+			for i := 0; !quit.Load(); i++ {
+				tx := txs[(i+g)%len(txs)]
+				_ = guard(func() {
+					switch g {
+					case 0:
+						r.mux.CheckTx(cmtabci.RequestCheckTx{Tx: tx, Type: cmtabci.CheckTxType_New})
+					case 1:
+						var st transaction.SignedTransaction
+						var t transaction.Transaction
+						if cbor.Unmarshal(tx, &st) == nil && cbor.Unmarshal(st.Blob, &t) == nil {
+							_, _ = r.srv.EstimateGas(st.Signature.PublicKey, &t)
+						}
+					default:
+						if tr, err := r.committedTree(); err == nil {
+							_, _ = r.net.ledgerProjectionQuiet(tr)
+						}
+					}
+				})
+				calls.Add(1)
+			}
+		}(g)
+	}
+	return func() int {
+		quit.Store(true)
+		wg.Wait()
+		return int(calls.Load())
+	}
+}
+
 // finalize runs BeginBlock / DeliverTx* / EndBlock / Commit for the decided block.
 func (r *cnReplica) finalize(b *cnBlock, valset map[int]int64) (res cnBlockResult) {
 	res.Accepted = true
+	stop := r.background(r.bgTxs)
+	stopped := false
+	defer func() {
+		if !stopped {
+			r.bgCalls += stop()
+		}
+	}()
 	perr := guard(func() {
 		r.mux.BeginBlock(cmtabci.RequestBeginBlock{
 			Hash: b.Hash,
@@ -682,6 +737,8 @@ func (r *cnReplica) finalize(b *cnBlock, valset map[int]int64) (res cnBlockResul
 		}
 		eb := r.mux.EndBlock(cmtabci.RequestEndBlock{Height: b.Height})
 		res.ValUpd = valUpdStrings(eb.ValidatorUpdates)
+		r.bgCalls += stop() // mempool checks are excluded during Commit
+		stopped = true
 		c := r.mux.Commit()
 		res.AppHash = fmt.Sprintf("%x", c.Data)
 	})
